@@ -742,7 +742,7 @@ theorem hidden_K {pre : List Event} {c c' : Cand} {t : Tid} (h : c.hidden t = so
       · intro u hw
         simp only [setWin] at hw
         split at hw
-        · cases hw
+        · cases k <;> simp [Kind.next] at hw
         · exact hk.win u hw
       · intro v hv
         rcases stepI_log hst with h | ⟨v', ha, hpc, h⟩ | ⟨v', ha, hpc, h⟩
@@ -1027,7 +1027,7 @@ theorem hidden_W {pre : List Event} {c c' : Cand} {t : Tid} (h : c.hidden t = so
       · intro u hw
         simp only [setWin] at hw
         split at hw
-        · cases hw
+        · cases k <;> simp [Kind.next] at hw
         · exact hk.rel u hw
       · intro u w hs
         rcases hk.started u w hs with hh | hh
